@@ -798,7 +798,7 @@ class C16(Suite):
                 for op in ("set", "del", "pop"):
                     for slot in (0, 1):
                         yield {"stream": "copygrid", "ops": PRELUDE + [[cp, 0, "", 0], [op, slot, key, 5]] + TAIL}
-        nrand = 5000 if tier == "quick" else 110000
+        nrand = 25000 if tier == "quick" else 400000
         for i in range(nrand):
             stream = ("rand", "rand", "rand", "copy", "malformed")[i % 5]
             yield rand_case(rng, stream)
